@@ -379,6 +379,60 @@ theorem distance_near_great_circle_partial {el : Ell} (h : Valid el) (lon1 lat1 
     rw [e]
     nlinarith [mul_nonneg hf hA.le]
 
+/-- "stays within 0.6 % of the great-circle distance" — the clause itself, against the sphere of mean radius
+    `(2a + b)/3 = a (1 − f/3)`, for every ellipsoid with `0 ≤ f ≤ 0.0035` (both built-in ellipsoids) and EVERY pair of
+    points that is neither coincident nor antipodal.  Sharp form for every valid ellipsoid: the result lies between
+    `(1 − 2f)` and `(1 + f)` times `2 ω a` — Andoyer's correction lies in `[-2, 1]`, because the two terms satisfy
+    `P/c + Q/s ≤ 1` (`s c − P s − Q c = cos²L sin²L (sin²F + sin²G − 1)²`); `1 − 2f` is attained by short north-south
+    arcs at the equator. -/
+theorem distance_within_0_6_percent_of_great_circle {el : Ell} (h : Valid el) (lon1 lat1 lon2 lat2 : ℝ) :
+    let F := (pradians lat1 + pradians lat2) / 2
+    let G := (pradians lat1 - pradians lat2) / 2
+    let L := (pradians lon1 - pradians lon2) / 2
+    let s := Real.sin G ^ 2 * Real.cos L ^ 2 + Real.cos F ^ 2 * Real.sin L ^ 2
+    let c := Real.cos G ^ 2 * Real.cos L ^ 2 + Real.sin F ^ 2 * Real.sin L ^ 2
+    let gc := 2 * Real.arcsin (Real.sqrt s) * ((2 * el.a + el.b) / 3)      -- great circle on the mean sphere
+    0 < s → 0 < c →
+    ∃ d err, distance el lon1 lat1 lon2 lat2 = .ok (d, err) ∧
+      (1 - 2 * el.f) * (2 * Real.arcsin (Real.sqrt s) * el.a) ≤ d ∧
+      d ≤ (1 + el.f) * (2 * Real.arcsin (Real.sqrt s) * el.a) ∧
+      (el.f ≤ 0.0035 → |d - gc| ≤ 0.006 * gc) := by
+  intro F G L s c gc hs hc
+  have hsc : s + c = 1 := s_add_c F G L
+  obtain ⟨hR0, hR1⟩ := R_range hs hc hsc
+  have hjoint := PQ_joint F G L
+  have hcorr := correction_range_joint (P := Real.sin F ^ 2 * Real.cos G ^ 2) (Q := Real.cos F ^ 2 * Real.sin G ^ 2)
+    hs hc (by positivity) (by positivity) hjoint hR0 hR1
+  have hom : Real.arctan (Real.sqrt (s / c)) = Real.arcsin (Real.sqrt s) := by
+    have hc' : c = 1 - s := by linarith
+    rw [hc']; exact arctan_sqrt_ratio hs.le (by linarith)
+  have hpos : 0 < Real.arcsin (Real.sqrt s) := Real.arcsin_pos.mpr (Real.sqrt_pos.mpr hs)
+  obtain ⟨_, _, hform⟩ := distance_is_andoyer el lon1 lat1 lon2 lat2
+  rw [hom] at hcorr
+  have hA : 0 < 2 * Real.arcsin (Real.sqrt s) * el.a := by have := h.a_pos; positivity
+  have hf := h.f_nonneg
+  have e : (3 * (Real.sqrt (s * c) / Real.arcsin (Real.sqrt s)) - 1) / (2 * c) * Real.sin F ^ 2 * Real.cos G ^ 2
+      - (3 * (Real.sqrt (s * c) / Real.arcsin (Real.sqrt s)) + 1) / (2 * s) * Real.cos F ^ 2 * Real.sin G ^ 2
+      = (3 * (Real.sqrt (s * c) / Real.arcsin (Real.sqrt s)) - 1) / (2 * c) * (Real.sin F ^ 2 * Real.cos G ^ 2)
+      - (3 * (Real.sqrt (s * c) / Real.arcsin (Real.sqrt s)) + 1) / (2 * s) * (Real.cos F ^ 2 * Real.sin G ^ 2) := by ring
+  obtain ⟨lo, hi⟩ := hcorr
+  have hlo : (1 - 2 * el.f) * (2 * Real.arcsin (Real.sqrt s) * el.a)
+      ≤ 2 * Real.arctan (Real.sqrt (s / c)) * el.a * (1 + el.f * ((3 * (Real.sqrt (s * c) / Real.arctan (Real.sqrt (s / c))) - 1) / (2 * c) * Real.sin F ^ 2 * Real.cos G ^ 2
+        - (3 * (Real.sqrt (s * c) / Real.arctan (Real.sqrt (s / c))) + 1) / (2 * s) * Real.cos F ^ 2 * Real.sin G ^ 2)) := by
+    rw [hom, e]; nlinarith [mul_nonneg hf hA.le]
+  have hhi : 2 * Real.arctan (Real.sqrt (s / c)) * el.a * (1 + el.f * ((3 * (Real.sqrt (s * c) / Real.arctan (Real.sqrt (s / c))) - 1) / (2 * c) * Real.sin F ^ 2 * Real.cos G ^ 2
+        - (3 * (Real.sqrt (s * c) / Real.arctan (Real.sqrt (s / c))) + 1) / (2 * s) * Real.cos F ^ 2 * Real.sin G ^ 2))
+      ≤ (1 + el.f) * (2 * Real.arcsin (Real.sqrt s) * el.a) := by
+    rw [hom, e]; nlinarith [mul_nonneg hf hA.le]
+  refine ⟨_, _, hform hs hc, hlo, hhi, ?_⟩
+  intro hf35
+  have hgc : gc = (1 - el.f / 3) * (2 * Real.arcsin (Real.sqrt s) * el.a) := by
+    show 2 * Real.arcsin (Real.sqrt s) * ((2 * el.a + el.b) / 3) = _
+    rw [b_eq]; ring
+  rw [hgc, abs_le]
+  norm_num at hf35 ⊢
+  constructor <;> nlinarith [mul_nonneg hf hA.le]
+
 /-- On a sphere (`f = 0`) the surface distance IS the great-circle (haversine) distance `2 a asin sqrt(s)`. -/
 theorem distance_sphere_is_great_circle {el : Ell} (h : Valid el) (hf : el.f = 0) (lon1 lat1 lon2 lat2 : ℝ) :
     let F := (pradians lat1 + pradians lat2) / 2
